@@ -1219,42 +1219,33 @@ func (t *ZeroAllocTokenizer) TokenizeOptimized() ([]Token, error) {
 		tagContent := t.source[tagContentStart:tagEndPos]
 		t.line += countNewlines(tagContent)
 
-		// Determine the end token type and length
+		// Determine the end token type. tagEndPos is the position of the closing
+		// "}}", "%}" or "#}", which is always two bytes long; a whitespace-control
+		// dash, if any, is the last byte of the tag content, whether or not the
+		// opening delimiter has a dash too
 		var endTokenType int
-		var endLength int
+		endLength := 2
+		trimEnd := tagLoc.Type != TAG_COMMENT && len(tagContent) > 0 && tagContent[len(tagContent)-1] == '-'
+		if trimEnd {
+			// Adjust tag content to remove the trailing dash
+			tagContent = tagContent[:len(tagContent)-1]
+		}
 
 		switch tagLoc.Type {
-		case TAG_VAR:
-			endTokenType = TOKEN_VAR_END
-			endLength = 2 // }}
-		case TAG_VAR_TRIM:
-			// Check if it ends with -}}
-			if tagEndPos > 0 && t.source[tagEndPos-1] == '-' {
-				endTokenType = TOKEN_VAR_END_TRIM
-				endLength = 3 // -}}
-				// Adjust tag content to remove the trailing dash
-				tagContent = tagContent[:len(tagContent)-1]
+		case TAG_VAR, TAG_VAR_TRIM:
+			if trimEnd {
+				endTokenType = TOKEN_VAR_END_TRIM // -}}
 			} else {
-				endTokenType = TOKEN_VAR_END
-				endLength = 2 // }}
+				endTokenType = TOKEN_VAR_END // }}
 			}
-		case TAG_BLOCK:
-			endTokenType = TOKEN_BLOCK_END
-			endLength = 2 // %}
-		case TAG_BLOCK_TRIM:
-			// Check if it ends with -%}
-			if tagEndPos > 0 && t.source[tagEndPos-1] == '-' {
-				endTokenType = TOKEN_BLOCK_END_TRIM
-				endLength = 3 // -%}
-				// Adjust tag content to remove the trailing dash
-				tagContent = tagContent[:len(tagContent)-1]
+		case TAG_BLOCK, TAG_BLOCK_TRIM:
+			if trimEnd {
+				endTokenType = TOKEN_BLOCK_END_TRIM // -%}
 			} else {
-				endTokenType = TOKEN_BLOCK_END
-				endLength = 2 // %}
+				endTokenType = TOKEN_BLOCK_END // %}
 			}
 		case TAG_COMMENT:
-			endTokenType = TOKEN_COMMENT_END
-			endLength = 2 // #}
+			endTokenType = TOKEN_COMMENT_END // #}
 		}
 
 		// Process tag content based on tag type
